@@ -40,6 +40,15 @@ def check(ck):
     ck.count("exec_phase_write_sites", len(sites), 100)
 
     with ck.rule("R1"):
+        r1(ck, ph, sites)
+    with ck.rule("R2"):
+        r2(ck, ph, sites)
+    with ck.rule("R3"):
+        _per_request_objects(ck, repo, ph)
+
+
+def r1(ck, ph, sites):
+    if True:
         n_interesting = 0
         for f, s, c, why in sites:
             ok, reason = ph.judge(f, s, c, why, ph.exec_prov)
@@ -58,7 +67,10 @@ def check(ck):
               construct="census:fresh", evals=fresh)
         ck.sample({"exec_phase_functions": len(ph.exec_set), "write_sites": len(sites), "fresh_or_per_request": fresh, "examined_individually": n_interesting})
 
-    with ck.rule("R2"):
+
+
+def r2(ck, ph, sites):
+    if True:
         bad = 0
         for f, s, c, why in sites:
             root = s.root or ""
@@ -79,9 +91,6 @@ def check(ck):
         from ..effects import _root_name
         call = [n for n in _ast.walk(probe) if isinstance(n, _ast.Call)][0]
         ck.ob("positive control: a write through `field_nodes` is recognised", _root_name(call.func.value) in AST_ROOTS, where="sa/props/c15.py", construct="readonly:control")
-
-    with ck.rule("R3"):
-        _per_request_objects(ck, repo, ph)
 
 
 def _per_request_objects(ck, repo, ph):
